@@ -169,6 +169,7 @@ var seq33 = func() [][]int {
 	}
 	return append(s, same, mixed)
 }()
+
 // primary list value: the two-element sequence [0,1] (same key twice for
 // user properties)
 var seqPrimary = func() int {
@@ -402,7 +403,9 @@ func subscribeSchema() *Schema {
 		userSlot("top"),
 		{Name: "filters", Group: "top", N: len(fl) + nOpts + len(strLens) - 2 + 1, Primary: seqPrimary,
 			WellFormed: func(i int) bool { return i != 0 },
-			Big:        func(i int) bool { return i >= len(fl)+nOpts && i < len(fl)+nOpts+len(strLens)-2 && strLens[i-len(fl)-nOpts+2] >= 16383 },
+			Big: func(i int) bool {
+				return i >= len(fl)+nOpts && i < len(fl)+nOpts+len(strLens)-2 && strLens[i-len(fl)-nOpts+2] >= 16383
+			},
 			Set: func(p *spec.Packet, i int) {
 				switch {
 				case i < len(fl):
